@@ -1219,6 +1219,6 @@ def run(ctx):
                      "search: flag vs numeric Clifford test for every gate class (controlled_by versions, parameter sweeps, parameter updates), accepted circuits vs state vector (n<=5, depth<=30, initial_state, random_clifford), Born support of samples / frequencies / registers, exhaustive 2-qubit circuits, mid-circuit collapse histories, refusal of every non-Clifford class, stim engine, to_circuit AG04/BM20, copies and string forms")
     ctx.assumptions.append("theorems: local conjugation U P = +-P' U for every operation and every local Pauli (complete: finite domain), row locality, symplectic invariance / tableau invariant for all n and all circuits, rowsum phase arithmetic; "
                            "assembled for every n: U_g P(w) = P(g.act w) U_g as operators on state vectors of the simulator model (T12_conjugation_all_qubits), lifted to circuits (rows of the tableau = conjugates of the initial rows; every stabiliser row fixes the state vector: T12_stabilizer_state); "
-                           "measurement: rowsum = operator product, the determined outcome of the first measurement after any circuit has Born probability 1 (T12_determined_outcome_born), in the random branch both outcomes have non-zero probability (T12_random_outcome_both_possible), both also for any tableau/state pair satisfying the invariants; "
-                           "NOT proved: that the tableau update of a random outcome keeps the invariants for the collapsed state (sequences of measurements after a random outcome: correspondence and search only), Gaussian-integer gate matrices equal the documented ones up to positive/unit scalars (compared on every run), correctness of AG04/BM20 (search only); stim is a third-party engine (search only)")
+                           "measurement: rowsum = operator product, the determined outcome has Born probability 1 (T12_determined_outcome_born), in the random branch both outcomes have non-zero probability (T12_random_outcome_both_possible); the tableau written by _random_outcome describes the collapsed state (invariant, non-degeneracy, stabilisers fix the projected state: T12_random_outcome_keeps_invariants), hence for every circuit, every list of measured qubits and all coins the returned outcome string has non-zero Born probability (T12_measurement_sequence_born); "
+                           "NOT proved in Lean: Gaussian-integer gate matrices equal the documented ones up to positive/unit scalars (compared on every run), the float angle dispatch / clifford flag (sweeps), repeated execution / frequencies / registers API around M (correspondence and search), correctness of AG04/BM20 (search only); stim is a third-party engine (search only)")
     ctx.trusted.append("numpy kron / matrix products as the meaning of Pauli strings and of U P U^dagger in the numeric Clifford test (tolerance 1e-9)")
